@@ -47,6 +47,21 @@ def tokenise(b):
     return ev
 
 
+def pending_len(b, p):
+    """full encoded length (head + payload of a definite string) of the item head at offset p, from the bytes that are there; None if it cannot be
+    determined yet from fewer bytes than the head (then any request up to the head length is in range: return the head length)"""
+    W = {24: 1, 25: 2, 26: 4, 27: 8}
+    if p >= len(b): return 1
+    ib = b[p]; mt, ai = ib >> 5, ib & 31
+    k = W.get(ai, 0)
+    hl = 1 + k
+    if mt in (2, 3) and ai != 31:
+        if ai < 24: return hl + ai
+        if p + hl > len(b): return hl          # length bytes not all there: the decoder can only ask for the head
+        return hl + int.from_bytes(b[p + 1:p + hl], 'big')
+    return hl
+
+
 class C09(Prop):
     id = 'C09'
     module = 'Cbor.Props.C09'
@@ -120,10 +135,34 @@ class C09(Prop):
             ev = tokenise(s)
             exp = '%d %s' % (len(ev), ';'.join(ev) if ev else 'none')
             if o != exp: fails.append({'input': l, 'expected': exp[:400], 'observed': o[:400], 'why': 'events received through this fragmentation differ from the tokenisation of the complete stream'})
+        # every wait: strictly more than is buffered, never more than the pending item occupies
+        wl = ['FRAGW' + l[4:] for _, l in cs]
+        wo, rc, err = ctx.run_c(wl)
+        for (s, _), l, o in zip(cs, wl, wo):
+            ctx.bump('waits', 0 if o == 'none' else len(o.split()))
+            if o == 'none': continue
+            for w in o.split():
+                p, req, buf = (int(x) for x in w.split(':'))
+                full = pending_len(s, p)
+                # the head may itself be incomplete: then the decoder may ask for the head first
+                W = {24: 1, 25: 2, 26: 4, 27: 8}
+                hl = 1 + W.get(s[p] & 31, 0) if p < len(s) else 1
+                ok = buf < req <= min(max(full, hl), 2 ** 64 - 1) or (buf < hl and req == hl)
+                if not ok:
+                    fails.append({'input': l, 'expected': 'buffered %d < required <= %d (what the pending item at offset %d occupies)' % (buf, min(full, 2 ** 64 - 1), p),
+                                  'observed': 'wait %s (offset:required:buffered)' % w, 'why': 'a wait does not ask for strictly more than is buffered, or asks for more than the pending item occupies'})
+                    break
         return fails[:20]
 
     def replay(self, ctx, rp):
         l = rp['failure']['input']; s = bytes.fromhex(l.split()[1]) if l.split()[1] != '-' else b''
+        if l.startswith('FRAGW'):
+            out, rc, _ = ctx.run_c([l])
+            for w in (out[0].split() if out and out[0] != 'none' else []):
+                p, req, buf = (int(x) for x in w.split(':'))
+                full = pending_len(s, p); hl = 1 + {24: 1, 25: 2, 26: 4, 27: 8}.get(s[p] & 31, 0) if p < len(s) else 1
+                if not (buf < req <= min(max(full, hl), 2 ** 64 - 1) or (buf < hl and req == hl)): return [dict(rp['failure'], observed='wait ' + w)]
+            return [dict(rp['failure'], observed='abort')] if rc != 0 else []
         out, rc, _ = ctx.run_c([l])
         ev = tokenise(s); exp = '%d %s' % (len(ev), ';'.join(ev) if ev else 'none')
         if rc != 0 or out[0] != exp: return [dict(rp['failure'], observed=(out[0] if out else 'abort')[:400])]
